@@ -479,15 +479,24 @@ def sparse_group(g):
     target = r.choice([1500, 3000, 4000, 4096, 4097, 4300])      # size of the union in the first key
     universe = sorted(r.sample(range(CH), target))
     names = []
+    # which operands hold which key: every key in at least two operands, often NOT in the first two (so that the chunk is
+    # still an array when the 3rd, 4th … operand is merged in place)
+    holders = {k: set(r.sample(range(n), r.randint(2, n))) for k in keys}
     for i in range(n):
         slots = []
         for j, k in enumerate(keys):
+            if i not in holders[k]:
+                continue
+            hs = sorted(holders[k])
             if j == 0:
-                vs = sorted(set(universe[i::n]) | set(r.sample(universe, min(len(universe), r.choice([0, 50, 400])))))
+                vs = sorted(set(universe[hs.index(i)::len(hs)]) | set(r.sample(universe, min(len(universe), r.choice([0, 50, 400])))))
             else:
                 vs = sorted(r.sample(range(CH), r.choice([300, 600, 1100])))
             vs = vs[:4096]
             slots.append("%d:A:%s" % (k, ",".join(map(str, vs))))
+        if not slots:
+            slots.append("%d:A:%d" % ((keys[-1] + 1 + i) % 65536, i))
+        slots.sort(key=lambda t: int(t.split(":")[0]))
         a = g.fresh(tag)
         g.emit("mkrepr %s cow=%d;%s" % (a, r.randrange(2) if r.random() < 0.3 else 0, ";".join(slots)))
         names.append(a)
